@@ -1,11 +1,22 @@
 import Props.Obligations
 import Spec.U2f
 import Props.C07
+import Ctap.Layout
 /-
   C09 — U2F responses are encoded in the raw message layout; appended to the caller's buffer
   without disturbing it; failure when they do not fit; never a panic.
 -/
 namespace C09
+
+/-! #### per-run obligation: the three arms of `ctap1::Response::serialize`, statement by statement -/
+theorem ob_layout : Gen.layoutU2fRegister = Spec.layoutU2fRegister ∧
+    Gen.layoutU2fAuthenticate = Spec.layoutU2fAuthenticate ∧ Gen.layoutU2fVersion = Spec.layoutU2fVersion := by decide
+
+/-- what the source's statements do is the model `u2fSerialize` the theorems below are about -/
+theorem source_is_model (cap : Nat) (r : U2fResp) (buf : List Byte) :
+    runFlat cap (u2fBytes r) (u2fNum r)
+      (u2fLayout Gen.layoutU2fRegister Gen.layoutU2fAuthenticate Gen.layoutU2fVersion r) buf = u2fSerialize cap r buf := by
+  rw [ob_layout.1, ob_layout.2.1, ob_layout.2.2]; exact runFlat_u2f cap r buf
 
 theorem appendChain_ok (cap : Nat) (cs : List (List Byte)) (buf : List Byte)
     (h : buf.length + cs.flatten.length ≤ cap) : appendChain cap cs buf = (buf ++ cs.flatten, true) := by
